@@ -59,7 +59,8 @@ def run(ctx):
             # the slate checked is the incoming one
             for b, t in cfg.find_calls(f, CHECK_TTL):
                 o = vf.origins(f, t["a"][1])
-                sl = [p[0] for n, p, a in f.vars if n == "slate" and a > 0]
+                slp = c.param(f, "slate", "slate::Slate")
+                sl = [slp] if slp is not None else []
                 held = bool(sl) and ("arg", sl[0]) in o
                 run.instance(R1, {"fn": pp.short(k), "obligation": "check_ttl is applied to (a clone of) the incoming slate"}, held=held)
                 if not held:
